@@ -97,6 +97,8 @@ def build_ds(gspec, coords=True):
             ds[name].attrs.update(v["attrs"])
     for d, attrs in (gspec.get("dim_attrs") or {}).items():
         ds[d].attrs.update(attrs)
+    if gspec.get("ds_attrs"):
+        ds.attrs.update(gspec["ds_attrs"])
     return ds
 
 
